@@ -615,7 +615,7 @@ package netty
 //@   ensures sync_flush_iff_written: implies(old(c.writeQueue) == nil && count("net.Conn.Write") == 1, (count("Transport.Flush") == 1) == (evres(first("net.Conn.Write"), 1) == nil) && implies(count("Transport.Flush") == 1, first("Transport.Flush") > first("net.Conn.Write") && first("Transport.Flush") < last("unlock c.writeLock")))
 //@   ensures sync_result: implies(old(c.writeQueue) == nil && count("net.Conn.Write") == 1 && count("Transport.Flush") == 0, err == evres(first("net.Conn.Write"), 1)) && implies(count("Transport.Flush") == 1, err == evres(first("Transport.Flush"), 0))
 //@   ensures closed_rejects@C11: implies(old(closedState(c)), err != nil && count("send c.writeQueue") == 0)
-//@ property C01 C09 C11 C18
+//@ property C01 C09 C11 C14 C18
 //@ func (*channel).Writev
 //@   requires chinv(c) && implies(c.writeQueue != nil, cap(c.writeQueue) >= 1)
 //@   modifies ghost pooltyp, ghost chclosed, elems(uint8), cell([]byte), channel.running
